@@ -288,6 +288,10 @@ def cases(draw):
     if draw(st.booleans()):
         secs.append(lastext.section("X", "~Tops", draw(st.lists(S.item_line(kind="X", v12=v12), max_size=3))))
     secs.append(lastext.section("A", "~A", [lastext.row(["1", "10.5"]), lastext.row(["2", "-999.25"])], ncols=2))
+    if draw(st.integers(0, 4)) == 0:
+        # ~Well in front of ~Version (lasio reads such files): whatever is done to learn the version early must be as
+        # tolerant as the regular pass
+        secs[0], secs[1] = secs[1], secs[0]
     n = draw(st.integers(1, 5))
     junk = [[draw(st.integers(0, len(secs) - 1)), draw(st.integers(0, 8)), draw(junk_line)] for _ in range(n)]
     # steer the section index towards sections that accept junk
